@@ -4,7 +4,7 @@ use std::sync::atomic::{AtomicBool, AtomicU32, Ordering};
 use vcore::proptest::prelude::*;
 use vcore::{Cx, Level, Res, Session};
 
-const RULE: &str = "a case is a scenario interpreted against a real emit_otlp emitter and the scripted local collector: transport {HTTP/JSON, HTTP/protobuf, gRPC} x gzip on/off x any non-empty subset of the three signals; per signal one small 'plug' event whose request the collector holds open, then 2-9 events with 300-700 KiB (sometimes tiny or >1 MiB) string payloads that accumulate into ONE batch which emit splits into 1..5+ size-limited requests; the collector answers the n-th request of that batch by script {ack, 4xx/5xx, non-zero grpc-status in trailers or in a Trailers-Only response, bare HTTP error on gRPC, close before reading, read then close, stall past the request timeout (30 s, scaled by hook H3) without answering / after the response HEADERS / after a fragment of the response body, wedge the whole connection (open, never answering again, reading or not, while new connections work), abort the response after its HEADERS or mid body (RST_STREAM / GOAWAY / connection dropped), ack then close}; optionally one signal's endpoint is down (refused / reset / 503) for the whole case; the application ends with blocking_flush or by dropping the emitter (while batches are queued, or while a failed request waits for its back-off). Families: split (no fault), fault (1-2 scripted failures), stall, outage, drop, exhaust (batch A fails on every attempt until emit gives it up, then batch B whose first request fails once and must be re-sent and acknowledged). Non-trivial = some signal's batch needed >= 2 requests, or >= 1 request failed.";
+const RULE: &str = "a case is a scenario interpreted against a real emit_otlp emitter and the scripted local collector: transport {HTTP/JSON, HTTP/protobuf, gRPC} x gzip on/off x any non-empty subset of the three signals; per signal one small 'plug' event whose request the collector holds open, then 2-9 events with 300-700 KiB (sometimes tiny or >1 MiB) string payloads that accumulate into ONE batch which emit splits into 1..5+ size-limited requests; the collector answers the n-th request of that batch by script {ack, any non-2xx final status (3xx redirects, 4xx, 5xx), non-zero grpc-status in trailers or in a Trailers-Only response, bare HTTP error on gRPC, close before reading, read then close, stall past the request timeout (30 s, scaled by hook H3) without answering / after the response HEADERS / after a fragment of the response body, wedge the whole connection (open, never answering again, reading or not, while new connections work), abort the response after its HEADERS or mid body (RST_STREAM / GOAWAY / connection dropped), ack then close}; optionally one signal's endpoint is down (refused / reset / 503) for the whole case; the application ends with blocking_flush or by dropping the emitter (while batches are queued, or while a failed request waits for its back-off). Families: split (no fault), fault (1-2 scripted failures), stall, outage, drop, exhaust (batch A fails on every attempt until emit gives it up, then batch B whose first request fails once and must be re-sent and acknowledged). Non-trivial = some signal's batch needed >= 2 requests, or >= 1 request failed.";
 
 /// Bounds shrinking cost: every evaluation of a scenario costs 0.1-30 s of real time.
 struct Guard {
@@ -73,7 +73,8 @@ fn fault_kind(wire: Wire, stall: bool) -> BoxedStrategy<Fault> {
     }
     match wire {
         Wire::HttpJson | Wire::HttpProto => prop_oneof![
-            3 => prop::sample::select(vec![400u16, 404, 429, 500, 502, 503]).prop_map(Fault::Status),
+            // any non-2xx final status: redirects (a client at this level does not follow them) as well as errors
+            4 => prop::sample::select(vec![301u16, 302, 303, 304, 307, 308, 400, 404, 429, 500, 502, 503]).prop_map(Fault::Status),
             2 => Just(Fault::CloseBeforeRead),
             2 => Just(Fault::ReadThenClose),
             1 => Just(Fault::AckThenClose),
@@ -89,7 +90,7 @@ fn fault_kind(wire: Wire, stall: bool) -> BoxedStrategy<Fault> {
         Wire::Grpc => prop_oneof![
             3 => (1u8..=16).prop_map(Fault::GrpcStatus),
             2 => (1u8..=16).prop_map(Fault::GrpcTrailersOnly),
-            2 => prop::sample::select(vec![429u16, 502, 503]).prop_map(Fault::Status),
+            2 => prop::sample::select(vec![301u16, 302, 307, 308, 429, 502, 503]).prop_map(Fault::Status),
             2 => Just(Fault::CloseBeforeRead),
             2 => Just(Fault::ReadThenClose),
             1 => Just(Fault::AckThenClose),
@@ -316,6 +317,8 @@ fn main() {
             s.require("fault:grpc-stall-mid-body", if quick { 4 } else { 200 });
             s.require("fault:http1-stall-after-headers", if quick { 4 } else { 200 });
             s.require("fault:http1-stall-mid-body", if quick { 4 } else { 200 });
+            s.require("fault:status-3xx", if quick { 8 } else { 300 });
+            s.require("fault:grpc-http-status-3xx", if quick { 4 } else { 150 });
             // the response is cut off after its HEADERS: no grpc-status ever arrived, that is a failed request
             for how in ["rst", "goaway", "drop"] {
                 s.require(&format!("fault:grpc-abort-after-headers/{how}"), if quick { 4 } else { 150 });
@@ -376,6 +379,28 @@ fn main() {
                                         for f in st.faults.iter_mut() {
                                             f.fault = if mid { Fault::AbortMidBody(how) } else { Fault::AbortAfterHeaders(how) };
                                             f.pos = f.pos.min(1);
+                                        }
+                                    }
+                                    sc
+                                })
+                            };
+                            s.gen(&name, cases, strat, |sc, cx| guard.check(s, sc, cx));
+                        })
+                        .unwrap();
+                }
+                // a redirect is a non-2xx status too: one generator per wire, so the classes are reached by construction
+                for (wire, wname) in wires {
+                    let name = format!("status-3xx-{wname}");
+                    let cases = s.n(6, 200);
+                    std::thread::Builder::new()
+                        .stack_size(16 << 20)
+                        .spawn_scoped(scope, move || {
+                            let guard = Guard::new();
+                            let strat = move || {
+                                (scenario(wire, Family::Fault, thorough), prop::sample::select(vec![301u16, 302, 303, 304, 307, 308])).prop_map(move |(mut sc, code)| {
+                                    for st in sc.streams.iter_mut().flatten() {
+                                        for f in st.faults.iter_mut() {
+                                            f.fault = Fault::Status(code);
                                         }
                                     }
                                     sc
